@@ -497,6 +497,12 @@ def _term_cases(g, fe, tag, base, out_shape, curv, extra_cons, ndir, allow_obj=T
                 if vt != 'C' and (d >= 2 or abs(k) != 1):
                     continue
                 yield ('%s|cons' % tag, ktag, _mk(g, fe, extra_cons + [c], g.direction(d), vt))
+            if aff_rhs and vt == 'C':
+                # adversarial direction: push the affine right-hand side against the atom
+                row = rhs['A'][0]
+                adv = {'dir': 'max' if rel == '>=' else 'min',
+                       't': {'atom': None, 'lin': {'A': [list(row)], 'b': [0.125], 'shape': []}}}
+                yield ('%s|cons' % tag, ktag, _mk(g, fe, extra_cons + [c], adv, vt))
         if allow_obj and len(out_shape) == 0:
             odir = 'min' if curv * k > 0 else 'max'
             for vt in vts:
@@ -545,7 +551,7 @@ def _c06_one(g, fe, thorough, ndir):
                 for it in _term_cases(g, fe, tag, base, out_shape, info['curv'], [], ndir):
                     yield it
     # ---- vector atoms -------------------------------------------------------------------------
-    for m in ([2, 3] if thorough else [2]):
+    for m in [2, 3]:
         for atom, par in _vec_variants(m, thorough):
             info = ATOMS[atom]
             pos = info['dom'] is not None
